@@ -33,6 +33,11 @@ type Exec struct {
 	// almost every batch of the streams, so that code which starts to cut batches by it cannot go unnoticed; the
 	// repository ignores the value today)
 	MaxBytes uint64
+	// Drain (optional, default off): GetTxs is destructive like the in-repo reference executor's
+	// (apps/testapp/kv/kvexecutor.go GetTxs drains its channel): every transaction of Mempool is returned by exactly
+	// one GetTxs call. Taken logs what the GetTxs calls returned while Drain was on, in order.
+	Drain bool
+	Taken [][]byte
 }
 
 func (e *Exec) maxBytes() uint64 {
@@ -65,7 +70,12 @@ func (e *Exec) GetTxs(context.Context) ([][]byte, error) {
 	if e.GetTxErr {
 		return nil, errors.New("mempool unavailable")
 	}
-	return append([][]byte(nil), e.Mempool...), nil
+	out := append([][]byte(nil), e.Mempool...)
+	if e.Drain {
+		e.Taken = append(e.Taken, out...)
+		e.Mempool = nil
+	}
+	return out, nil
 }
 func (e *Exec) ExecuteTxs(_ context.Context, txs [][]byte, h uint64, ts time.Time, prev []byte) ([]byte, uint64, error) {
 	e.mu.Lock()
